@@ -103,7 +103,7 @@ class BasicBlock:
         # Named vectors iterate as rows (size-1 arrays); evaluate on scalars so
         # results can be stored into scalar slots (required by NumPy >= 2)
         args = tuple(
-            arg.item() if isinstance(arg, np.ndarray) and arg.size == 1 else arg
+            arg.flat[0] if isinstance(arg, np.ndarray) and arg.size == 1 else arg
             for arg in args
         )
         temporary_values = {}
